@@ -15,6 +15,7 @@ fn main() {
     let f: fn(&serde_json::Value) -> serde_json::Value = match engine.as_str() {
         "retryopts" => engines::retryopts::run,
         "filter" => engines::filter::run,
+        "attempt" => engines::attempt::run,
         "combinators" => engines::combinators::run,
         "outline" => engines::outline::run,
         "stepmatch" => engines::stepmatch::run,
